@@ -19,7 +19,7 @@ EXPLANATION = (
     "scratch state (match spans, replacement) is cleared or recomputed before it is read in every Sink method, and "
     "record_matches/replace themselves start by clearing; (PRELUDE) path, line number, column, byte offset in that "
     "order with 1-based columns; (PATHS) fast paths only without match spans, multi-line paths only in multi-line mode. "
-    "Byte-for-byte equality of the printed text and correctness of the numbers are values and not decided. (REDISCOVER) match re-discovery reports only matches starting before the end of the reported range, over a bounded haystack starting at range.start, with the terminator trimmed in single-line mode.")
+    "Byte-for-byte equality of the printed text and correctness of the numbers are values and not decided. (REDISCOVER) match re-discovery reports only matches starting before the end of the reported range, over a bounded haystack starting at range.start, with the terminator trimmed in single-line mode; every printer's matched() passes the searcher's buffer and the match's range in it, not the matched bytes alone.")
 NOT_DECIDED = ["byte-for-byte equality of printed text with the input", "correctness of columns / offsets (values)"]
 
 P = "grep_printer"
@@ -88,10 +88,35 @@ def rediscover_rule(ctx, r):
         else:
             r.bad("trim", "in single-line mode the re-discovery haystack still contains the line terminator", fn=f, construct="trim")
 
+    # The matched() entry of every printer hands the re-discovery the searcher's whole buffer plus the range of
+    # the match inside it (look-ahead past the last matched line stays visible), never just the matched bytes.
+    SM = "grep_searcher::sink::SinkMatch"
+    TARGETS = ("::record_matches", "::replace", "::util::find_iter_at_in_context")
+    for sink in (STD, JS, P + "::summary::SummarySink"):
+        m = sink_fn(facts, sink, "matched")
+        ebm = ExprBuilder(m)
+        n = 0
+        for c in m.calls():
+            if not (c.path.startswith(P) and c.path.endswith(TARGETS)):
+                continue
+            n += 1
+            args = [ebm.operand(a) for a in c.args]
+            key = "caller|%s|%s" % (sink.split("::")[-1], c.path.split("::")[-1])
+            has_buf = any(mentions_call(a, SM + "::buffer") for a in args)
+            has_rng = any(mentions_call(a, SM + "::bytes_range_in_buffer") for a in args)
+            if has_buf and has_rng:
+                r.ok(key, "re-discovery over (mat.buffer(), mat.bytes_range_in_buffer())", fn=m)
+            else:
+                r.bad(key, "%s::matched re-discovers matches over %s: look-around past the matched lines is cut off, so this "
+                      "printer finds other matches than the searcher and its sibling printers" % (
+                          sink.split("::")[-1], "the matched bytes only" if not has_buf else "a range that is not the match's range in the buffer"),
+                      fn=m, loc=c.loc, construct="rediscover-caller")
+        if not n:
+            r.bad("caller|%s" % sink.split("::")[-1], "anchor-missing: %s::matched no longer re-discovers matches" % sink, fn=m)
 
 def run(ctx):
     facts = ctx.facts
-    with ctx.rule("C09.REDISCOVER", "match re-discovery is confined to the reported range", floor=3, kind="GUARD/FLOW") as r:
+    with ctx.rule("C09.REDISCOVER", "match re-discovery is confined to the reported range", floor=7, kind="GUARD/FLOW") as r:
         rediscover_rule(ctx, r)
     with ctx.rule("C09.FRAME", "JSON framing: begin dominates, at most once, end only after begin", floor=6, kind="DOM/GUARD") as r:
         WB = JS + "::write_begin_message"
